@@ -51,6 +51,9 @@ def gen_vec(rng, cid, nmax=3, two=False):
             data["den"] = other["den"] = 2
             data["dtype"] = rng.choice(["int32", "int64"])
             halves = True
+        if not halves and rng.random() < 0.25:
+            for part in rng.choice([[u], [v], [u, v]]):
+                gen.sprinkle_nan(rng, part, "d9")     # land cells next to a junction, blank tiles
         if two:
             data, other = (u, v) if comp == "a1" else (v, u)
             return {"id": cid, "ev": "Vec2D", "op": rng.choice(["diff", "interp"]), "grid": g,
